@@ -67,12 +67,19 @@ static int iteratorVarargReset(MPT_INTERFACE(iterator) *it)
 {
 	struct iteratorVararg *va = (void *) it;
 	const char *fmt = va->org.fmt;
-	if (fmt && *fmt) {
-		va_end(va->arg);
-		va_copy(va->arg, va->org.arg);
-	}
+	int ret;
 	va->fmt = fmt;
-	return fmt ? strlen(fmt) : 0;
+	if (!fmt || !*fmt) {
+		MPT_value_set(&va->val, 0, 0);
+		return 0;
+	}
+	va_end(va->arg);
+	va_copy(va->arg, va->org.arg);
+	/* current value is the first argument again */
+	if ((ret = _iteratorVarargNext(va)) < 0) {
+		return ret;
+	}
+	return strlen(fmt);
 }
 
 /*!
